@@ -194,7 +194,23 @@ pub fn run(tier: Tier, seed: u64) -> i32 {
             }
             if let Some((i, what)) = bad {
                 let row = crate::canon::batches_to_rows(&[b.slice(i, 1)]);
-                let sig = if what.starts_with("validity") { "validity-bit" } else { "value-bit" };
+                // explanation predicate: the sign of a NaN produced BY ARITHMETIC
+                // is not specified (operand order decides it), and totalOrder
+                // sorts -NaN below -inf but +NaN above +inf.
+                let one = b.slice(i, 1);
+                let mut subs = Vec::new();
+                arith_subexprs(&e, &mut subs);
+                let arith_nan = subs.iter().any(|s| match evaluate_expr(&one, s) {
+                    Ok(a) => a.as_any().downcast_ref::<Float64Array>().map(|f| f.len() == 1 && f.is_valid(0) && f.value(0).is_nan()).unwrap_or(false),
+                    Err(_) => false,
+                });
+                let sig = if what.starts_with("validity") {
+                    "validity-bit"
+                } else if arith_nan {
+                    "arithmetic-nan-sign"
+                } else {
+                    "value-bit"
+                };
                 rep.fail(
                     sig,
                     &format!("{} at row {} of {} for {} ; row = {}", what, i, bname, e, crate::canon::fmt_row(&row[0])),
@@ -213,4 +229,23 @@ pub fn run(tier: Tier, seed: u64) -> i32 {
     // ---- process half: QE_COMPILE=0 vs default ----------------------------
     crate::checks::cfgdiff::run_c06_process_half(&mut rep, tier, seed);
     rep.finish()
+}
+
+fn arith_subexprs(e: &Expr, out: &mut Vec<Expr>) {
+    match e {
+        Expr::BinaryExpr { left, op, right } => {
+            if matches!(op, BinaryOp::Add | BinaryOp::Subtract | BinaryOp::Multiply | BinaryOp::Divide) {
+                out.push(e.clone());
+            }
+            arith_subexprs(left, out);
+            arith_subexprs(right, out);
+        }
+        Expr::UnaryExpr { expr, .. } => arith_subexprs(expr, out),
+        Expr::Between { expr, low, high, .. } => {
+            arith_subexprs(expr, out);
+            arith_subexprs(low, out);
+            arith_subexprs(high, out);
+        }
+        _ => {}
+    }
 }
